@@ -129,7 +129,12 @@ class Msgs:
             f = {"request": io["request"], "arg_size": io["size"]}
             f.update(over)
             n = over.get("_arg_len", io["size"])
-            return lay.ioctl_req(f["request"], b"\0" * n, arg_size=f["arg_size"])
+            # VBIPROXY_CHN_IOCTL_REQ_SIZE(n) is one byte short of arg_data + n: pack, then cut
+            body = bytearray(lay.const["VBIPROXY_CHN_IOCTL_REQ_SIZE_0"] + n + 8)
+            lay.put(body, "chn_ioctl_req.request", f["request"])
+            lay.put(body, "chn_ioctl_req.arg_size", f["arg_size"])
+            body = bytes(body[:lay.const["VBIPROXY_CHN_IOCTL_REQ_SIZE_0"] + n])
+            return lay.header(lay.hdr + len(body), lay.type[tname]) + body
         if tname in ("MSG_TYPE_CHN_RECLAIM_CNF", "MSG_TYPE_CLOSE_REQ"):
             return lay.simple(tname)
         if tname == "MSG_TYPE_DAEMON_PID_REQ":
@@ -397,3 +402,1232 @@ def gen_fault_batches(lay, ioc, seed, tier, nbatch_w, nbatch_s):
         out.append({"kind": "fault", "seed": seed, "tier": tier, "index": nbatch_w + b, "witnesses": 0,
                     "cases": S[b::nbatch_s]})
     return [b for b in out if b["cases"]]
+
+
+# ============================================================================
+# rig with C19 extras
+
+class C19Rig(Rig):
+    def __init__(self, repo, tag="c19"):
+        Rig.__init__(self, repo, "select", tag=tag)
+        self.denv["ASAN_OPTIONS"] = self.denv["ASAN_OPTIONS"] + ":hard_rss_limit_mb=%d" % RSS_LIMIT_MB
+        self._err_off = 0
+        self._conn_n = 0
+
+    def stderr_new(self):
+        try:
+            with open(self.derr, "rb") as f:
+                f.seek(self._err_off)
+                d = f.read()
+        except OSError:
+            return ""
+        self._err_off += len(d)
+        return d.decode("latin1")
+
+    def named_conn(self, prefix="f"):
+        self._conn_n += 1
+        name = "%s.%s%d" % (self.id, prefix, self._conn_n)
+        c = PyConn(self, name)
+        c.peer = "_" + name            # how hook H1 prints the abstract address
+        self.conns.append(c)
+        return c
+
+    def device_open_count(self):
+        self.trace_tail()
+        return self.tr_opens - self.tr_closes
+
+
+WITNESS_KEYS = {
+    "model:C18:lost-frame": "model:C19:witness-frame-missing",
+    "model:C18:client-dropped": "model:C19:witness-dropped",
+    "model:C18:device-not-closed": "model:C19:device-not-closed",
+    "model:C18:device-not-open": "model:C19:device-not-open",
+    "crash:client": "model:C19:witness-process-ended",
+}
+
+
+class WitnessOut:
+    """Outcome facade handed to the C18 controller / monitor code: counters pass
+    through with a prefix, violation keys are re-keyed to C19, C18's coverage
+    signatures are dropped (C19 has its own)."""
+
+    def __init__(self, out, extra_fn):
+        self._out = out
+        self._extra = extra_fn
+        self.sigs = set()
+        self.counters = out.counters
+        self.inconclusive = out.inconclusive
+        self.harness_errors = out.harness_errors
+        self.cases = 0
+        self.samples = []
+        self.violations = out.violations
+
+    def count(self, k, n=1):
+        self._out.count("witness_" + k, n)
+
+    def violation(self, key, detail, extra=None):
+        if key in WITNESS_KEYS:
+            key = WITNESS_KEYS[key]
+        elif key.startswith("model:C18:"):
+            key = "model:C19:witness:" + key[len("model:C18:"):]
+        self._out.violation(key, detail, self._extra())
+
+
+WITNESS_SERVICES = [(0x41f, 0), (0x3, 1), (0x404, 0), (0x18, 1), (0x7, 2), (0x403, -1)]
+
+
+class Witnesses(C18Controller):
+    """2-3 real client processes in lock-step, driven through the C18 controller's operations"""
+
+    def __init__(self, repo, rig, out, extra_fn, descr):
+        C18Controller.__init__(self, repo, {"kind": "c19-witness", "variant": "select", "ops": [], "descr": descr},
+                               WitnessOut(out, extra_fn))
+        self.rig = rig
+        self.real_out = out
+
+    def join(self, n, rng, prio_bg=True):
+        for slot in range(n):
+            svc, strict = WITNESS_SERVICES[(slot + rng.randrange(len(WITNESS_SERVICES))) % len(WITNESS_SERVICES)]
+            self.op_connect({"c": slot, "svc": svc, "strict": strict, "buffers": rng.choice([1, 2, 5]),
+                             "scanning": 0, "flags": 0})
+            c = self.slots.get(slot)
+            if c is None or not c.connected:
+                raise AbortSchedule("witness %d could not connect" % slot)
+            if prio_bg:
+                # background priority without a channel request (is_valid = FALSE), as the API documents it
+                self.cmd(c, "chn %d 0 0 0 0" % 1, "chn")
+
+    def tick(self, n=1):
+        self.op_tick({"n": n})
+
+    def leave_all(self, rng=None):
+        order = sorted(s for s, c in self.slots.items() if c is not None and c.connected and not c.eof)
+        if rng:
+            rng.shuffle(order)
+        for slot in order:
+            if self.union() != 0:
+                self.tick(1)
+            self.op_close({"c": slot})
+
+    def finish_procs(self):
+        errs = {}
+        for c in self.procs:
+            errs[c.name] = c.finish()
+        return errs
+
+    def monitor(self):
+        """the C18 stream monitors over the witnesses' logs.  C18's "device services = union of the
+        clients' services" rule is about all clients; faulty clients hold services too and their
+        grants are not always knowable, so that sub-check is neutralised here (the entry takes the
+        traced value); completeness and content per witness are what C19 asks for."""
+        tr = self.rig.read_trace()
+        by_seq = {f["seq"]: f for f in tr["frames"]}
+        for e in self.ctl:
+            if e["k"] == "tick" and e["seq"] in by_seq:
+                e["union"] = by_seq[e["seq"]]["svc"]
+        Monitor(self).check()
+        self.real_out.count("witness_frames_checked", self.real_out.counters.get("witness_frames_content_equal", 0)
+                            - self.real_out.counters.get("_wfc_prev", 0))
+        self.real_out.counters["_wfc_prev"] = self.real_out.counters.get("witness_frames_content_equal", 0)
+
+
+# ============================================================================
+# fault batches
+
+class CaseAbort(Exception):
+    pass
+
+
+class FaultBatch:
+    def __init__(self, repo, batch, out):
+        self.repo = repo
+        self.batch = batch
+        self.out = out
+        self.lay = P.layout(repo)
+        self.m = Msgs(self.lay, ioctls(repo))
+        self.rig = None
+        self.wit = None
+        self.case = None
+        self.silent = []
+        self.rng = random.Random((int(batch["seed"]) << 16) ^ (batch["index"] * 104729 + 7))
+        self.tn = self.lay.type_name
+
+    # -- bookkeeping -------------------------------------------------------
+    def extra(self):
+        b = {k: v for k, v in self.batch.items() if k != "cases"}
+        return {"batch": b, "case": self.case}
+
+    def v(self, key, detail):
+        c = self.case
+        if c is not None:
+            detail = "%s | case %s" % (detail, json.dumps(c, sort_keys=True)[:500])
+        self.out.violation(key, detail, self.extra())
+
+    # -- building the bytes of a case ---------------------------------------
+    def build(self, c):
+        """-> (chunks, mtype, fkind): chunks = [(bytes, reply spec or None)]"""
+        m, lay = self.m, self.lay
+        k = c["kind"]
+        if k == "trunc":
+            run = protocol_run(m, c["run"])
+            cut = c["cut"]
+            chunks, off = [], 0
+            mtype, part = "END", "complete"
+            for tname, b in run:
+                if cut >= off + len(b):
+                    chunks.append((b, REPLY.get(tname)))
+                elif cut > off or (cut == off):
+                    if cut > off:
+                        chunks.append((b[:cut - off], None))
+                    mtype = tname
+                    part = "boundary" if cut == off else ("hdr" if cut - off < lay.hdr else ("hdr-only" if cut - off == lay.hdr else "body"))
+                    break
+                off += len(b)
+            if c["mode"] == "pipe":
+                chunks = [(b"".join(b for b, _ in chunks), None)] if chunks else []
+            return chunks, mtype, "trunc-%s-%s-%s" % (part, c["mode"], c["end"])
+        if k == "hdrlen":
+            t, L = c["type"], c["len"]
+            good = m.valid(t)
+            body = good[lay.hdr:]
+            want = max(0, min(L - lay.hdr, 8192))
+            if L < lay.hdr or L > lay.size["VBIPROXY_MSG"]:
+                body = (body + bytes(JUNK))[:max(JUNK, len(body))]      # must never be read
+            elif want <= len(body):
+                body = body[:want]
+            else:
+                body = body + bytes(want - len(body))
+            v = len(good)
+            cls = ("lt-hdr" if L < lay.hdr else "lt-valid" if L < v else "valid" if L == v else
+                   "gt-valid" if L <= lay.size["VBIPROXY_MSG"] else "gt-max")
+            return [(lay.header(L, lay.type[t]) + body, None)], t, "hdrlen-%s-%s" % (cls, c["end"])
+        if k == "type":
+            t = c["type"]
+            return [(m.any_type(t), None)], (t if isinstance(t, str) else "T%d" % min(t, 99)), "type-%s" % c["end"]
+        if k == "field":
+            t, f, v = c["type"], c["field"], c["value"]
+            over = {}
+            vc = None
+            if isinstance(v, dict):
+                v = bytes.fromhex(v["hex"])
+            if isinstance(v, (list, tuple)):
+                vc = v[0]
+                if v[0] == "ioctl":
+                    over = {"request": v[1], "arg_size": v[2], "_arg_len": max(0, min(v[2], 900))}
+                elif v[0] == "both":
+                    over = {"notify_flags": v[1], "scanning": v[2]}
+            elif t == "MSG_TYPE_CONNECT_REQ" and f in ("buffer_count",):
+                over = {"buffer_count": v}
+            else:
+                over = {f: v}
+            if t == "MSG_TYPE_CHN_IOCTL_REQ" and f == "arg_size":
+                over = {"arg_size": v, "_arg_len": m.get_ioctl[0]["size"]}
+            return [(m.valid(t, over), None)], t, "field-%s-%s" % (f, vc or val_class(v))
+        if k == "junk":
+            r = random.Random(c["rseed"])
+            return [(bytes(r.getrandbits(8) for _ in range(c["n"])), None)], "JUNK", "junk-%s" % c["end"]
+        raise KeyError(k)
+
+    # -- connection states -----------------------------------------------------
+    def rpc(self, c, data, want, async_sink=None):
+        """send a complete well-formed message, wait for its reply -> (type name, body) or (None, None) on EOF"""
+        if c.send(data) < 0:
+            return None, None
+        if want is None:
+            return "none", b""
+        if want == "EOF":
+            ty, body = c.recv_msg(want_types=(), keep_other=async_sink if async_sink is not None else [])
+            return None, None
+        ids = [self.lay.type[w] for w in want]
+        ty, body = c.recv_msg(want_types=ids, keep_other=async_sink if async_sink is not None else [])
+        if ty is None:
+            return None, None
+        return self.tn.get(ty, ty), body
+
+    def flush(self, c, rounds=2, sink=None):
+        """harmless request/confirm round trips: everything the daemon had queued for this
+        connection before has arrived when the last confirm is here (FIFO).  Two rounds, because the
+        daemon sends a pending indication only after the reply of the round trip that found it pending."""
+        sink = sink if sink is not None else []
+        for _ in range(rounds):
+            ty, _b = self.rpc(c, self.m.valid("MSG_TYPE_CHN_SUSPEND_REQ"), REPLY["MSG_TYPE_CHN_SUSPEND_REQ"], sink)
+            if ty is None:
+                return False
+        return True
+
+    def enter_state(self, c, st):
+        """-> reached state; raises CaseAbort when a well-formed prologue is refused"""
+        m = self.m
+        if st == "S0":
+            return st, None
+        svc = 0 if st == "S1" else 0x3
+        ty, body = self.rpc(c, m.valid("MSG_TYPE_CONNECT_REQ", {"services": svc, "strict": 0}), REPLY["MSG_TYPE_CONNECT_REQ"])
+        if ty != "MSG_TYPE_CONNECT_CNF":
+            if not self.rig.daemon_alive():
+                raise DaemonDied("daemon died during a well-formed connect")
+            self.v("model:C19:valid-connect-refused", "a well-formed CONNECT_REQ (services 0x%x, strict 0) was answered with %s"
+                   % (svc, ty or "end-of-file"))
+            raise CaseAbort()
+        if st in ("S1", "S2"):
+            return st, None
+        ty, body = self.rpc(c, m.valid("MSG_TYPE_CHN_TOKEN_REQ", {"chn_profile.sub_prio": 0x20}), REPLY["MSG_TYPE_CHN_TOKEN_REQ"])
+        if ty is None:
+            raise CaseAbort()
+        if not self.lay.get(body, "chn_token_cnf.token_ind"):
+            self.out.count("state_S3_without_token")
+            return "S3", None
+        if st == "S3":
+            return st, None
+        # S4: a second client with a better sub-priority asks; the daemon reclaims the token from c
+        h = self.rig.named_conn("h")
+        ty, _b = self.rpc(h, m.valid("MSG_TYPE_CONNECT_REQ", {"services": 0, "strict": 0}), REPLY["MSG_TYPE_CONNECT_REQ"])
+        if ty == "MSG_TYPE_CONNECT_CNF":
+            self.rpc(h, m.valid("MSG_TYPE_CHN_TOKEN_REQ", {"chn_profile.sub_prio": 0x40}), REPLY["MSG_TYPE_CHN_TOKEN_REQ"])
+        sink = []
+        self.flush(c, 2, sink)
+        rec = any(ty == self.lay.type["MSG_TYPE_CHN_RECLAIM_REQ"] for ty, _ in sink)
+        if not rec:
+            self.out.count("state_S4_without_reclaim")
+        return ("S4" if rec else "S3"), h
+
+    # -- one case ------------------------------------------------------------------
+    def run_case(self, case):
+        out, rig = self.out, self.rig
+        self.case = case
+        chunks, mtype, fkind = self.build(case)
+        if case["state"] in ("S3", "S4") and self.silent:
+            # a connection that never asked for a priority counts as "interactive" and keeps the
+            # daemon from granting the token to background clients: let the silent ones go first
+            for s in self.silent:
+                s.close()
+            self.silent = []
+            rig.barrier()
+        c = rig.named_conn("f")
+        helper = None
+        try:
+            st, helper = self.enter_state(c, case["state"])
+            dropped_early = False
+            for data, want in chunks:
+                if want is None:
+                    if c.send(data) < 0:
+                        dropped_early = True
+                        break
+                else:
+                    ty, _b = self.rpc(c, data, want)
+                    if ty is None:
+                        dropped_early = True
+                        if want != "EOF":
+                            out.count("valid_prefix_dropped")
+                        break
+            end = case.get("end", "close")
+            if end == "close":
+                c.close()
+            elif end == "halfclose":
+                try:
+                    c.s.shutdown(1)
+                except OSError:
+                    pass
+            rig.barrier()
+            got = [] if end == "close" else c.poll()
+            if end == "halfclose":
+                c.close()
+                rig.barrier()
+            elif end == "silent":
+                if c.eof:
+                    c.close()
+                else:
+                    self.silent.append(c)
+            if end == "close":
+                outcome = "x"
+            elif c.eof:
+                outcome = "dropped"
+            elif any(ty != self.lay.type["MSG_TYPE_SLICED_IND"] for ty, _ in got):
+                outcome = "answered"
+            else:
+                outcome = "kept"
+        except CaseAbort:
+            c.close()
+            st, outcome = case["state"], "abort"
+        finally:
+            if helper is not None:
+                helper.close()
+        if helper is not None:
+            rig.barrier()
+        while len(self.silent) > MAX_SILENT:
+            self.silent.pop(0).close()
+            rig.barrier()
+        mt = short(mtype)
+        out.sigs.add("%s:%s:%s:%s:%s" % ("solo" if case.get("solo") else "wit", st, mt, fkind, outcome))
+        out.count("faulty_connections")
+        out.count("faulty_by_state:" + st)
+        out.count("faulty_by_type:" + mt)
+        out.count("faulty_by_kind:" + case["kind"])
+        out.count("faulty_by_end:" + case.get("end", "close"))
+        if case["kind"] == "trunc":
+            out.count("truncation_points")
+        elif case["kind"] == "hdrlen":
+            out.count("header_lengths")
+        elif case["kind"] == "type":
+            out.count("type_state_pairs")
+        elif case["kind"] == "field":
+            out.count("field_extremes")
+        if outcome != "x":
+            out.count("connection_%s_by_daemon" % outcome)
+        self.after_case()
+
+    def after_case(self):
+        out, rig = self.out, self.rig
+        # 1. alive, sanitizer-silent
+        if not rig.daemon_alive():
+            raise DaemonDied("daemon is gone (rc=%s)" % rig.daemon.returncode)
+        out.count("daemon_alive_checks")
+        new = rig.stderr_new()
+        if new:
+            for k, d in classify_sanitizer(new, self.repo, out.counters):
+                self.v(k, "daemon: " + d)
+        # 2. resources: exactly the connections that are still open are held
+        for s in list(self.silent):
+            s.poll()
+            if s.eof:
+                s.close()
+                self.silent.remove(s)
+        want = self.baseline + len(self.silent)
+        have = rig.daemon_fds()
+        for _ in range(3):
+            if have == want or have < 0:
+                break
+            rig.barrier()
+            for s in list(self.silent):
+                s.poll()
+                if s.eof:
+                    s.close()
+                    self.silent.remove(s)
+            want = self.baseline + len(self.silent)
+            have = rig.daemon_fds()
+        out.count("fd_checks")
+        if have >= 0 and have != want:
+            self.v("model:C19:fd-leak", "daemon holds %d file descriptors, expected %d (baseline %d + %d faulty connections still open)"
+                   % (have, want, self.baseline, len(self.silent)))
+            self.baseline += have - want            # report once, not for every following case
+        if self.wit is None:
+            if not self.silent and rig.device_open_count() != 0:
+                self.v("model:C19:device-not-closed", "no client is connected but the capture device is still open (opens=%d closes=%d)"
+                       % (rig.tr_opens, rig.tr_closes))
+        else:
+            # 3. the witnesses keep receiving: one frame, lock-step
+            self.wit.tick(1)
+
+    # -- one daemon life ---------------------------------------------------------------
+    def segment(self, cases, pos):
+        out = self.out
+        self.rig = rig = C19Rig(self.repo, tag="c19f")
+        self.silent = []
+        self.wit = None
+        died = None
+        nw = self.batch.get("witnesses", 0)
+        try:
+            try:
+                rig.start()
+                self.fd0 = rig.daemon_fds()
+                out.count("daemon_starts")
+                if nw:
+                    self.wit = Witnesses(self.repo, rig, out, self.extra, "fault batch %s/%s" % (self.batch["seed"], self.batch["index"]))
+                    self.wit.join(nw, self.rng)
+                    self.wit.tick(3)
+                rig.barrier()
+                self.baseline = rig.daemon_fds()
+                while pos < len(cases):
+                    case = cases[pos]
+                    pos += 1
+                    self.run_case(case)
+                self.case = None
+                # epilogue: faulty clients are gone -> resources back to the baseline
+                for s in self.silent:
+                    s.close()
+                self.silent = []
+                rig.barrier()
+                self.after_case()
+                if self.wit is not None:
+                    self.wit.tick(2)
+                    self.wit.leave_all(self.rng)
+                    rig.barrier()
+                if rig.device_open_count() != 0:
+                    self.v("model:C19:device-not-closed", "all clients have left but the capture device is still open (opens=%d closes=%d)"
+                           % (rig.tr_opens, rig.tr_closes))
+                have = rig.daemon_fds()
+                if have >= 0 and have != self.fd0:
+                    rig.barrier()
+                    have = rig.daemon_fds()
+                out.count("fd_checks")
+                if have >= 0 and have != self.fd0:
+                    self.v("model:C19:fd-leak", "after the last client left the daemon holds %d file descriptors, %d at start-up"
+                           % (have, self.fd0))
+            except DaemonDied as e:
+                died = str(e)
+            except (AbortSchedule, ClientGone) as e:
+                if not rig.daemon_alive():
+                    died = str(e)
+                else:
+                    out.inconclusive.append("C19 fault batch %s/%s: %s" % (self.batch["seed"], self.batch["index"], e))
+                    pos = len(cases)
+            except Inconclusive as e:
+                if not rig.daemon_alive():
+                    died = str(e)
+                else:
+                    out.inconclusive.append("C19 fault batch %s/%s case %s: %s"
+                                            % (self.batch["seed"], self.batch["index"], (self.case or {}).get("id"), e))
+                    pos = len(cases)
+            self.finish(died)
+        finally:
+            rig.close()
+        return pos
+
+    def finish(self, died):
+        out, rig = self.out, self.rig
+        errs = self.wit.finish_procs() if self.wit is not None else {}
+        was_alive = rig.daemon_alive()
+        rc = rig.stop_daemon()
+        text = rig.daemon_stderr()
+        found = classify_sanitizer(text, self.repo, out.counters)
+        for k, d in found:
+            self.v(k, "daemon: " + d)
+        if "hard rss limit exhausted" in text:
+            self.v("model:C19:daemon-memory-exhausted", "the daemon grew beyond %d MB and was stopped" % RSS_LIMIT_MB)
+            found.append(("rss", ""))
+        if died is not None or not was_alive:
+            out.count("daemon_deaths")
+            if not found:
+                self.v("model:C19:daemon-died", "the daemon process ended (rc=%s) while serving: %s; stderr tail: %s"
+                       % (rig.daemon.returncode, died, text[-500:].replace("\n", " / ")))
+        elif not found:
+            if rc is None:
+                out.inconclusive.append("daemon did not exit on SIGTERM within the watchdog")
+            elif rc != 0:
+                self.v("model:C19:daemon-exit-status", "daemon exit status %s after SIGTERM; stderr tail: %s"
+                       % (rc, text[-500:].replace("\n", " / ")))
+        for name, t in errs.items():
+            for k, d in classify_sanitizer(t, self.repo, out.counters, ignore_startup_leak=False):
+                if k.startswith("leak:"):
+                    out.count("client_library_leak_reports")
+                    continue
+                if died is not None:
+                    continue
+                self.v("witness:" + k, "witness %s: %s" % (name, d))
+        if self.wit is not None and died is None:
+            self.wit.monitor()
+
+    def run(self):
+        cases = self.batch["cases"]
+        self.out.cases += 1
+        pos = 0
+        guard = 0
+        while pos < len(cases) and guard < 60:
+            guard += 1
+            pos = self.segment(cases, pos)
+        if pos < len(cases):
+            self.out.inconclusive.append("C19 fault batch %s/%s: daemon died %d times, %d cases not run"
+                                         % (self.batch["seed"], self.batch["index"], guard, len(cases) - pos))
+        return self.out
+
+
+def run_fault_batch(repo, batch):
+    out = Outcome()
+    try:
+        FaultBatch(repo, batch, out).run()
+    except Exception as e:
+        import traceback
+        out.harness_errors.append("C19 fault controller: %s\n%s" % (e, traceback.format_exc()[-1500:]))
+    out.counters.pop("_wfc_prev", None)
+    if not out.samples:
+        cs = batch["cases"]
+        out.samples.append({"batch": "%s/%s" % (batch["seed"], batch["index"]), "witnesses": batch.get("witnesses", 0),
+                            "cases": len(cs), "first_cases": cs[:3]})
+    return out.to_json()
+
+
+# ============================================================================
+# token monitor (pure function over the totally ordered controller log)
+#
+# log entries: {"e": kind, "c": client id, ...}
+#   send-req   valid=0/1      a TOKEN_REQ goes out (gives up a token held: the client library does the same)
+#   send-notify flags=n       a NOTIFY_REQ goes out (TOKEN: token returned, RELEASE: request revoked + token returned)
+#   send-cnf                  a RECLAIM_CNF goes out
+#   conf                      the daemon has processed the client's last send (its confirm, or a later round trip, is here)
+#   grant      via=cnf|ind    TOKEN_CNF with token_ind / TOKEN_IND received
+#   reclaim                   RECLAIM_REQ received
+#   gone                      the client closed the connection / was dropped
+# Soundness without timing assumptions: sends are logged before they are made and receptions
+# after they happened, so a holding interval in the log is contained in the real one; a grant
+# that arrives between a send and its "conf" was emitted by the daemon before it processed that
+# send (FIFO) and is cancelled by it.
+
+def token_monitor(log):
+    """-> (violations [(key, detail)], stats)"""
+    st = {}
+    viol = []
+    stats = {"grants": 0, "void_grants": 0, "holder_checks": 0, "reclaims": 0}
+
+    def S(c):
+        if c not in st:
+            st[c] = {"holds": False, "reclaimed": False, "asked": False, "pending": None}
+        return st[c]
+
+    def ctx(i):
+        return " | log: " + "; ".join("%s:%s%s" % (x["c"], x["e"], ("(%s)" % ",".join("%s=%s" % (k, v) for k, v in x.items() if k not in ("e", "c"))) if len(x) > 2 else "")
+                                       for x in log[max(0, i - 14):i + 1])
+
+    for i, x in enumerate(log):
+        e, c = x["e"], x["c"]
+        s = S(c)
+        if e == "send-req":
+            s["holds"] = False
+            s["reclaimed"] = False
+            s["pending"] = ("req", x.get("valid", 0))
+            if x.get("valid", 0):
+                s["asked"] = True
+        elif e == "send-notify":
+            fl = x.get("flags", 0)
+            if fl & 1:
+                s["holds"] = False
+                s["reclaimed"] = False
+                s["pending"] = ("rel",)
+            elif fl & 2:
+                s["holds"] = False
+                s["reclaimed"] = False
+                s["pending"] = ("ret",)
+            else:
+                s["pending"] = ("other",)
+        elif e == "send-cnf":
+            if s["reclaimed"]:
+                s["holds"] = False
+                s["reclaimed"] = False
+                s["pending"] = ("other",)
+            else:
+                s["pending"] = ("cnf",)
+        elif e == "reclaim":
+            stats["reclaims"] += 1
+            s["reclaimed"] = True
+        elif e == "conf":
+            p, s["pending"] = s["pending"], None
+            if p:
+                if p[0] == "req" and not p[1]:
+                    s["asked"] = False
+                elif p[0] == "rel":
+                    s["asked"] = False
+                elif p[0] == "cnf" and s["reclaimed"]:
+                    # the reclaim crossed the confirm on the wire: the daemon may have taken it
+                    s["holds"] = False
+                    s["reclaimed"] = False
+        elif e == "gone":
+            s["holds"] = False
+            s["asked"] = False
+            s["pending"] = None
+            s["reclaimed"] = False
+        elif e == "grant":
+            p = s["pending"]
+            if x.get("via") == "ind" and p and p[0] in ("req", "ret", "rel"):
+                stats["void_grants"] += 1
+                continue
+            stats["grants"] += 1
+            stats["holder_checks"] += 1
+            others = sorted(k for k, v in st.items() if k != c and v["holds"])
+            if others:
+                viol.append(("model:C19:two-token-holders",
+                             "client %s is granted the token while %s still hold(s) it (not returned, released, "
+                             "reclaim-confirmed or disconnected)" % (c, ",".join(others)) + ctx(i)))
+            asked = s["asked"] or (x.get("via") == "cnf" and p and p[0] == "req" and p[1])
+            if not asked:
+                viol.append(("model:C19:grant-without-request",
+                             "client %s is granted the token without an outstanding channel request" % c + ctx(i)))
+            s["holds"] = True
+            s["reclaimed"] = False
+    return viol, stats
+
+
+HOLDER_STATES = (1, 2, 4)       # REQ_TOKEN_RECLAIM, _RELEASE, _GRANTED: granted and not yet given back
+TOKEN_NAMES = {0: "NONE", 1: "RECLAIM", 2: "RELEASE", 3: "GRANT", 4: "GRANTED", 5: "RETURNED"}
+
+
+def table_monitor(events, bg_prio):
+    """the daemon's own view (hook H1, client table at the end of main loop iterations)"""
+    viol, trans = [], set()
+    last = {}
+    n = 0
+    for kind, d in events:
+        if kind != "L":
+            continue
+        n += 1
+        holders = [c for c in d["clients"] if c["tok"] in HOLDER_STATES]
+        if len(holders) > 1:
+            viol.append(("model:C19:two-token-holders:daemon-state",
+                         "client table at main loop iteration %s: %s" % (d.get("it"), ", ".join(
+                             "%s(fd %d)=%s" % (c["peer"], c["fd"], TOKEN_NAMES.get(c["tok"], c["tok"])) for c in holders))))
+        now = {}
+        for c in d["clients"]:
+            if c["tok"] in (3, 4) and not (c["valid"] and c["prio"] == bg_prio):
+                viol.append(("model:C19:grant-without-request:daemon-state",
+                             "client table at iteration %s: %s(fd %d) is in token state %s with priority %d, profile valid %d"
+                             % (d.get("it"), c["peer"], c["fd"], TOKEN_NAMES.get(c["tok"]), c["prio"], c["valid"])))
+            k = (c["fd"], c["pid"], c["peer"])
+            now[k] = c["tok"]
+            if k in last and last[k] != c["tok"]:
+                trans.add("%s>%s" % (TOKEN_NAMES.get(last[k], last[k]), TOKEN_NAMES.get(c["tok"], c["tok"])))
+        last = now
+    return viol, trans, n
+
+
+def selftest():
+    """hand-written logs with known verdicts -> list of failures"""
+    bad = []
+
+    def run(name, log, want):
+        got = sorted(set(k for k, _ in token_monitor(log)[0]))
+        if got != sorted(want):
+            bad.append("%s: expected %s, monitor says %s" % (name, want, got))
+    A, B = "a", "b"
+    req = lambda c, v=1: [{"e": "send-req", "c": c, "valid": v}]
+    cnfg = lambda c: [{"e": "grant", "c": c, "via": "cnf"}, {"e": "conf", "c": c}]
+    cnf0 = lambda c: [{"e": "conf", "c": c}]
+    ind = lambda c: [{"e": "grant", "c": c, "via": "ind"}]
+    ret = lambda c: [{"e": "send-notify", "c": c, "flags": 2}]
+    rel = lambda c: [{"e": "send-notify", "c": c, "flags": 1}]
+    run("hand-over after return", req(A) + cnfg(A) + req(B) + cnf0(B) + [{"e": "reclaim", "c": A}] + ret(A) + cnf0(A) + ind(B), [])
+    run("second grant while held", req(A) + cnfg(A) + req(B) + cnfg(B), ["model:C19:two-token-holders"])
+    run("indication while held", req(A) + cnfg(A) + req(B) + cnf0(B) + ind(B), ["model:C19:two-token-holders"])
+    run("grant crossing a return is void", req(A) + cnfg(A) + ret(A) + ind(A) + cnf0(A) + req(B) + cnfg(B), [])
+    run("grant after the return was confirmed counts", req(A) + cnfg(A) + ret(A) + cnf0(A) + ind(A) + req(B) + cnfg(B),
+        ["model:C19:two-token-holders"])
+    run("never asked", req(A, 0) + cnf0(A) + ind(A), ["model:C19:grant-without-request"])
+    run("asked, released, granted", req(A) + cnf0(A) + rel(A) + cnf0(A) + ind(A), ["model:C19:grant-without-request"])
+    run("released with a grant in flight", req(A) + cnf0(A) + rel(A) + ind(A) + cnf0(A), [])
+    run("unasked confirm does not end the hold", req(A) + cnfg(A) + [{"e": "send-cnf", "c": A}] + cnf0(A) + req(B) + cnf0(B) + ind(B),
+        ["model:C19:two-token-holders"])
+    run("asked confirm ends the hold", req(A) + cnfg(A) + req(B) + cnf0(B) + [{"e": "reclaim", "c": A}, {"e": "send-cnf", "c": A}]
+        + cnf0(A) + ind(B), [])
+    run("reclaim crossing an unasked confirm", req(A) + cnfg(A) + [{"e": "send-cnf", "c": A}, {"e": "reclaim", "c": A}] + cnf0(A)
+        + req(B) + cnfg(B), [])
+    run("disconnect ends the hold", req(A) + cnfg(A) + [{"e": "gone", "c": A}] + req(B) + cnfg(B), [])
+    run("re-request gives the token up", req(A) + cnfg(A) + req(A) + cnf0(A) + req(B) + cnfg(B), [])
+    run("same client granted twice", req(A) + cnfg(A) + [{"e": "reclaim", "c": A}] + ind(A), [])
+    tv, tt, _n = table_monitor([("L", {"it": 1, "clients": [{"fd": 5, "pid": 1, "peer": "x", "tok": 4, "prio": 1, "valid": 1},
+                                                           {"fd": 6, "pid": 1, "peer": "y", "tok": 2, "prio": 1, "valid": 1}]})], 1)
+    if [k for k, _ in tv] != ["model:C19:two-token-holders:daemon-state"]:
+        bad.append("table monitor: two holders not reported: %r" % (tv,))
+    tv, tt, _n = table_monitor([("L", {"it": 1, "clients": [{"fd": 5, "pid": 1, "peer": "x", "tok": 5, "prio": 1, "valid": 1},
+                                                           {"fd": 6, "pid": 1, "peer": "y", "tok": 3, "prio": 1, "valid": 1}]}),
+                                ("L", {"it": 2, "clients": [{"fd": 5, "pid": 1, "peer": "x", "tok": 0, "prio": 1, "valid": 1},
+                                                           {"fd": 6, "pid": 1, "peer": "y", "tok": 4, "prio": 1, "valid": 1}]})], 1)
+    if tv or tt != {"RETURNED>NONE", "GRANT>GRANTED"}:
+        bad.append("table monitor: clean hand-over misjudged: %r %r" % (tv, tt))
+    return bad
+
+
+# ============================================================================
+# token schedules
+
+POLICIES = ["cnf", "cnf", "ret", "ret", "rel", "ignore", "ignore", "late"]
+
+
+def gen_token_schedule(seed, index, tier):
+    """pure function of (seed, index, tier); the controller skips operations that are impossible when their turn comes"""
+    rng = random.Random((int(seed) << 24) ^ (index * 6151 + 0xC19))
+    quick = tier == "quick"
+    nw = (0, 1, 1, 2)[index % 4]
+    nt = rng.randint(2, 5)
+    nops = rng.randint(30, 60) if quick else rng.randint(60, 160)
+    ops = []
+    BG, IA, REC = 1, 2, 3
+
+    def profile(prio=None, valid=None):
+        return {"prio": prio if prio is not None else rng.choice([BG] * 14 + [IA, REC, 0]),
+                "valid": valid if valid is not None else rng.choice([1, 1, 1, 1, 0]),
+                "sub": rng.choice([0, 0x10, 0x10, 0x20, 0x30, 0x40, 0xff]),
+                "min": rng.choice([0, 0, 0, 3600, 3600, 1, -1]), "exp": rng.choice([0, 60, -1]),
+                "susp": rng.choice([0, 1])}
+
+    for w in range(nw):
+        ops.append({"op": "wconnect", "w": w, "svc": rng.choice([0x41f, 0x3, 0x404]), "strict": rng.choice([0, 1]),
+                    "bg": 1 if rng.random() < 0.85 else 0})
+    for c in range(nt):
+        ops.append({"op": "connect", "c": c, "svc": rng.choice([0, 0, 0x4, 0x3]) if nw else rng.choice([0x4, 0x3, 0]),
+                    "policy": rng.choice(POLICIES), "bg": 1 if rng.random() < 0.93 else 0})
+    if nw:
+        ops.append({"op": "tick", "n": 2})
+
+    # directed opening: A gets the token, B asks with a better claim, A does one of the things a holder can do
+    a, b = rng.sample(range(nt), 2)
+    pa = dict(profile(BG, 1), sub=0x10, min=rng.choice([0, 3600]))
+    pb = dict(profile(BG, 1), sub=rng.choice([0x10, 0x20, 0x40]), min=rng.choice([0, 3600]))
+    ops.append(dict({"op": "req", "c": a}, **pa))
+    ops.append(dict({"op": "req", "c": b}, **pb))
+    how = index % 10
+    if how == 0:
+        ops.append({"op": "cnf", "c": a})                      # confirm (asked or not)
+    elif how == 1:
+        ops.append({"op": "notify", "c": a, "flags": 2})       # return
+    elif how == 2:
+        ops.append({"op": "notify", "c": a, "flags": 1})       # release
+    elif how == 3:
+        ops.append({"op": rng.choice(["close", "drop"]), "c": a})   # disconnect while holding
+    elif how == 4:
+        ops.append(dict({"op": "req", "c": a}, **profile(BG, 1)))   # ask again
+    elif how == 5:
+        ops.append({"op": "notify", "c": b, "flags": 2})       # the one who waits "returns" a token it does not have
+    elif how == 6:
+        ops.append({"op": "cnf", "c": b})                      # the one who waits confirms a reclaim nobody sent
+    elif how == 7:
+        ops.append({"op": "intruder"})                          # a connection that never asks for a priority
+    elif how == 8:
+        ops.append({"op": "notify", "c": a, "flags": 4})       # channel flush by the holder
+    ops.append({"op": "react"})
+    if nw:
+        ops.append({"op": "tick", "n": 1})
+
+    w = dict(req=22, ret=10, rel=6, flush=4, notify=4, cnf=9, close=3, drop=4, connect=7, tick=8 if nw else 0,
+             wreq=5 if nw else 0, wnotify=4 if nw else 0, react=8, intruder=3)
+    names = list(w)
+    weights = [w[k] for k in names]
+    for _ in range(nops):
+        k = rng.choices(names, weights)[0]
+        c = rng.randrange(nt)
+        if k == "req":
+            ops.append(dict({"op": "req", "c": c}, **profile()))
+        elif k == "ret":
+            ops.append({"op": "notify", "c": c, "flags": 2})
+        elif k == "rel":
+            ops.append({"op": "notify", "c": c, "flags": 1})
+        elif k == "flush":
+            ops.append({"op": "notify", "c": c, "flags": rng.choice([4, 4, 6, 5, 12])})
+        elif k == "notify":
+            ops.append({"op": "notify", "c": c, "flags": rng.choice([0, 3, 7, 8, 16, 31, 18, 0xffffffff])})
+        elif k == "cnf":
+            ops.append({"op": "cnf", "c": c})
+        elif k in ("close", "drop"):
+            ops.append({"op": k, "c": c})
+        elif k == "connect":
+            ops.append({"op": "connect", "c": c, "svc": rng.choice([0, 0, 0x4, 0x3]), "policy": rng.choice(POLICIES),
+                        "bg": 1 if rng.random() < 0.9 else 0})
+        elif k == "tick":
+            ops.append({"op": "tick", "n": rng.randint(1, 3)})
+        elif k == "wreq":
+            ops.append(dict({"op": "wreq", "w": rng.randrange(nw)}, **profile(rng.choice([BG, BG, BG, IA]))))
+        elif k == "wnotify":
+            ops.append({"op": "wnotify", "w": rng.randrange(nw), "flags": rng.choice([2, 2, 1, 4])})
+        elif k == "react":
+            ops.append({"op": "react"})
+        elif k == "intruder":
+            ops.append({"op": "intruder"})
+    ops.append({"op": "react"})
+    return {"kind": "token", "seed": seed, "index": index, "tier": tier, "nw": nw, "nt": nt, "ops": ops}
+
+
+class Tok:
+    """a token client as the controller sees it (raw connection or witness process)"""
+
+    def __init__(self, cid, conn=None, proc=None, policy="late"):
+        self.cid, self.conn, self.proc, self.policy = cid, conn, proc, policy
+        self.alive = True
+        self.unanswered = False      # a RECLAIM_REQ is waiting for a reaction
+        self.holds = False           # controller's running guess (for schedule decisions and signatures only)
+        self.seen = 0                # witness events already absorbed
+
+
+class TokenRun(FaultBatch):
+    def __init__(self, repo, sched, out):
+        FaultBatch.__init__(self, repo, {"kind": "token", "seed": sched["seed"], "tier": sched["tier"], "index": sched["index"],
+                                         "witnesses": sched["nw"], "cases": []}, out)
+        self.sched = sched
+        self.log = []
+        self.toks = {}               # slot -> Tok (raw)
+        self.wtoks = {}              # witness slot -> Tok
+        self.gen = 0
+        self.events_of_op = []
+
+    def extra(self):
+        return {"schedule": self.sched}
+
+    def v(self, key, detail):
+        self.out.violation(key, detail, self.extra())
+
+    # -- log ----------------------------------------------------------------
+    def L(self, e, t, **kw):
+        kw["e"] = e
+        kw["c"] = t.cid
+        self.log.append(kw)
+        self.events_of_op.append((e, t.cid))
+        if e == "grant":
+            t.holds = True
+            self.out.count("token_grants_seen")
+        elif e == "reclaim":
+            t.unanswered = True
+            self.out.count("token_reclaims_seen")
+        elif e == "gone":
+            t.alive = False
+            t.holds = False
+            t.unanswered = False
+
+    # -- raw token clients -------------------------------------------------------
+    def absorb(self, t, msgs):
+        ty_ind, ty_rec = self.lay.type["MSG_TYPE_CHN_TOKEN_IND"], self.lay.type["MSG_TYPE_CHN_RECLAIM_REQ"]
+        for ty, body in msgs:
+            if ty == ty_ind:
+                self.L("grant", t, via="ind")
+            elif ty == ty_rec:
+                self.L("reclaim", t)
+            elif ty == self.lay.type["MSG_TYPE_CHN_CHANGE_IND"]:
+                self.out.count("token_change_indications")
+            elif ty == self.lay.type["MSG_TYPE_SLICED_IND"]:
+                self.out.count("token_client_frames")
+            else:
+                self.out.count("token_other_messages")
+
+    def t_rpc(self, t, data, want):
+        """send on a raw token client, absorb what arrives before the reply -> (type name, body)"""
+        sink = []
+        ty, body = self.rpc(t.conn, data, want, sink)
+        self.absorb(t, sink)
+        if ty is None:
+            if not self.rig.daemon_alive():
+                raise DaemonDied("daemon died (rc=%s)" % self.rig.daemon.returncode)
+            if t.alive:
+                self.L("gone", t)
+                self.out.count("token_clients_dropped_by_daemon")
+                t.conn.close()
+        return ty, body
+
+    def t_flush(self, t, rounds=2):
+        for _ in range(rounds):
+            if not t.alive:
+                return
+            self.t_rpc(t, self.m.valid("MSG_TYPE_CHN_SUSPEND_REQ"), REPLY["MSG_TYPE_CHN_SUSPEND_REQ"])
+
+    # -- witnesses as token clients -------------------------------------------------
+    def w_absorb(self, t):
+        c = t.proc
+        evs = c.events[t.seen:]
+        t.seen = len(c.events)
+        for ev in evs:
+            k = ev.get("ev")
+            if k == "callback":
+                if ev.get("granted"):
+                    self.L("grant", t, via="ind")
+                if ev.get("reclaimed"):
+                    self.L("reclaim", t)
+            elif k == "chn":
+                if ev.get("has_token") == 1 and ev.get("ret") == 1:
+                    self.L("grant", t, via="cnf")
+                self.L("conf", t)
+            elif k == "notify":
+                self.L("conf", t)
+            elif k in ("error", "closed"):
+                if t.alive:
+                    self.L("gone", t)
+
+    def w_cmd(self, t, line, ack):
+        self.wit.cmd(t.proc, line, ack)
+        self.w_absorb(t)
+
+    # -- quiescence ------------------------------------------------------------------
+    def settle(self):
+        """every indication the daemon has decided on is with its client (and in the log)"""
+        for t in list(self.toks.values()):
+            if t.alive:
+                self.t_flush(t)
+        if self.wtoks:
+            self.rig.barrier()
+            for t in self.wtoks.values():
+                if t.alive and not t.proc.eof:
+                    self.w_cmd(t, "drain", "drained")
+
+    def react(self, explicit=False):
+        for _round in range(6):
+            todo = [t for t in list(self.toks.values()) + list(self.wtoks.values()) if t.alive and t.unanswered]
+            did = False
+            for t in todo:
+                pol = t.policy
+                if pol == "late" and not explicit:
+                    continue
+                if pol == "ignore":
+                    t.unanswered = False
+                    self.out.count("token_ops:ignored_reclaim")
+                    continue
+                t.unanswered = False
+                did = True
+                if t.proc is not None:
+                    self.do_wnotify(t, 1 if pol == "rel" else 2)
+                elif pol in ("cnf", "late"):
+                    self.do_cnf(t)
+                else:
+                    self.do_notify(t, 1 if pol == "rel" else 2)
+            if not did:
+                break
+            self.settle()
+
+    # -- operations ----------------------------------------------------------------------
+    def do_req(self, t, op):
+        m = self.m
+        self.L("send-req", t, valid=1 if op["valid"] else 0)
+        t.holds = False
+        ty, body = self.t_rpc(t, m.valid("MSG_TYPE_CHN_TOKEN_REQ", {
+            "chn_prio": op["prio"], "chn_profile.is_valid": op["valid"], "chn_profile.sub_prio": op["sub"],
+            "chn_profile.allow_suspend": op["susp"], "chn_profile.min_duration": op["min"],
+            "chn_profile.exp_duration": op["exp"]}), REPLY["MSG_TYPE_CHN_TOKEN_REQ"])
+        if ty is None:
+            return
+        if self.lay.get(body, "chn_token_cnf.token_ind"):
+            self.L("grant", t, via="cnf")
+        self.L("conf", t)
+
+    def do_notify(self, t, flags):
+        if flags & 3:
+            if not t.holds:
+                self.out.count("token_ops:return_not_held")
+            t.holds = False
+            t.unanswered = False
+        self.L("send-notify", t, flags=flags & 0xff)
+        ty, _b = self.t_rpc(t, self.m.valid("MSG_TYPE_CHN_NOTIFY_REQ", {"notify_flags": flags}), REPLY["MSG_TYPE_CHN_NOTIFY_REQ"])
+        if ty is not None:
+            self.L("conf", t)
+
+    def do_cnf(self, t):
+        if not t.unanswered and not any(x["e"] == "reclaim" and x["c"] == t.cid for x in self.log[-40:]):
+            self.out.count("token_ops:unsolicited_cnf")
+        t.unanswered = False
+        self.L("send-cnf", t)
+        if t.conn.send(self.m.valid("MSG_TYPE_CHN_RECLAIM_CNF")) < 0:
+            self.L("gone", t)
+            return
+        # no reply to a confirm: a harmless round trip tells when it has been processed
+        ty, _b = self.t_rpc(t, self.m.valid("MSG_TYPE_CHN_SUSPEND_REQ"), REPLY["MSG_TYPE_CHN_SUSPEND_REQ"])
+        if ty is not None:
+            self.L("conf", t)
+            # the controller's guess follows the monitor's rule only roughly; it is not used for verdicts
+            t.holds = False
+
+    def do_wnotify(self, t, flags):
+        if flags & 3:
+            t.holds = False
+            t.unanswered = False
+        self.L("send-notify", t, flags=flags)
+        self.w_cmd(t, "notify %x 0" % flags, "notify")
+
+    def op_connect(self, op):
+        slot = op["c"]
+        old = self.toks.get(slot)
+        if old is not None and old.alive:
+            return
+        self.gen += 1
+        conn = self.rig.named_conn("t%d." % slot)
+        t = Tok("t%d.%d" % (slot, self.gen), conn=conn, policy=op.get("policy", "late"))
+        t.peer = conn.peer
+        ty, body = self.rpc(conn, self.m.valid("MSG_TYPE_CONNECT_REQ", {"services": op.get("svc", 0), "strict": 0}),
+                            REPLY["MSG_TYPE_CONNECT_REQ"])
+        if ty != "MSG_TYPE_CONNECT_CNF":
+            if not self.rig.daemon_alive():
+                raise DaemonDied("daemon died during a well-formed connect")
+            self.v("model:C19:valid-connect-refused", "token client %s: a well-formed CONNECT_REQ (services 0x%x) was answered with %s"
+                   % (t.cid, op.get("svc", 0), ty or "end-of-file"))
+            conn.close()
+            return
+        self.toks[slot] = t
+        self.out.count("token_ops:connect")
+        if op.get("bg"):
+            # background priority without a channel request: otherwise the newcomer counts as interactive
+            # and the daemon grants the token to nobody
+            self.do_req(t, {"prio": self.m.BG, "valid": 0, "sub": 0, "susp": 0, "min": 0, "exp": 0})
+
+    def op_wconnect(self, op):
+        slot = op["w"]
+        self.wit.op_connect({"c": slot, "svc": op["svc"], "strict": op["strict"], "buffers": 2, "scanning": 0, "flags": 0})
+        c = self.wit.slots.get(slot)
+        if c is None or not c.connected:
+            raise AbortSchedule("witness %d could not connect" % slot)
+        t = Tok("w%d" % slot, proc=c, policy=self.rng.choice(["ret", "ret", "rel", "ignore"]))
+        t.seen = len(c.events)
+        self.wtoks[slot] = t
+        if op.get("bg"):
+            self.L("send-req", t, valid=0)
+            self.w_cmd(t, "chn 1 0 0 0 0", "chn")
+
+    def live(self, op):
+        t = self.toks.get(op["c"])
+        return t if t is not None and t.alive else None
+
+    def op_req(self, op):
+        t = self.live(op)
+        if t:
+            self.out.count("token_ops:request")
+            self.do_req(t, op)
+
+    def op_notify(self, op):
+        t = self.live(op)
+        if t:
+            fl = op["flags"]
+            self.out.count("token_ops:" + ("release" if fl & 1 else "return" if fl & 2 else "flush" if fl & 4 else "notify_other"))
+            self.do_notify(t, fl)
+
+    def op_cnf(self, op):
+        t = self.live(op)
+        if t:
+            self.out.count("token_ops:reclaim_confirm")
+            self.do_cnf(t)
+
+    def leave(self, op, clean):
+        t = self.live(op)
+        if not t:
+            return
+        if t.holds:
+            self.out.count("token_ops:disconnect_holding")
+        self.out.count("token_ops:close" if clean else "token_ops:drop")
+        self.L("gone", t)
+        if clean:
+            t.conn.send(self.m.valid("MSG_TYPE_CLOSE_REQ"))
+        t.conn.close()
+        self.rig.barrier()
+
+    def op_close(self, op):
+        self.leave(op, True)
+
+    def op_drop(self, op):
+        self.leave(op, False)
+
+    def op_tick(self, op):
+        if self.wit is not None and self.wit.union() != 0:
+            self.wit.tick(op["n"])
+            for t in self.wtoks.values():
+                self.w_absorb(t)
+
+    def op_wreq(self, op):
+        t = self.wtoks.get(op["w"])
+        if t and t.alive and not t.proc.eof:
+            self.out.count("token_ops:witness_request")
+            self.L("send-req", t, valid=1 if op["valid"] else 0)
+            t.holds = False
+            self.w_cmd(t, "chn %d %d %d %d %d" % (op["prio"], op["valid"], op["sub"] & 0xff, max(0, op["min"]), op["susp"]), "chn")
+
+    def op_wnotify(self, op):
+        t = self.wtoks.get(op["w"])
+        if t and t.alive and not t.proc.eof:
+            self.out.count("token_ops:witness_notify")
+            self.do_wnotify(t, op["flags"])
+
+    def op_react(self, op):
+        self.out.count("token_ops:react")
+        self.react(explicit=True)
+
+    def op_intruder(self, op):
+        # a connection that sends nothing has the default (interactive) priority while it lasts
+        self.out.count("token_ops:intruder")
+        c = self.rig.named_conn("i")
+        self.rig.barrier()
+        victim = [t for t in self.toks.values() if t.alive]
+        if victim:
+            self.do_notify(victim[0], 0)           # any request makes the daemon look at the priorities again
+        self.settle()
+        c.close()
+        self.rig.barrier()
+
+    # -- run -------------------------------------------------------------------------------
+    def run(self):
+        out, sched = self.out, self.sched
+        out.cases += 1
+        out.count("token_schedules")
+        self.rig = rig = C19Rig(self.repo, tag="c19t")
+        died = None
+        try:
+            try:
+                rig.start()
+                self.fd0 = rig.daemon_fds()
+                self.baseline = self.fd0
+                if sched["nw"]:
+                    self.wit = Witnesses(self.repo, rig, out, self.extra, "token schedule %s/%s" % (sched["seed"], sched["index"]))
+                for op in sched["ops"]:
+                    self.events_of_op = []
+                    before = {t.cid: (t.holds, t.unanswered) for t in list(self.toks.values()) + list(self.wtoks.values())}
+                    getattr(self, "op_" + op["op"])(op)
+                    self.settle()
+                    self.react()
+                    self.signature(op, before)
+                    if not rig.daemon_alive():
+                        raise DaemonDied("daemon is gone (rc=%s)" % rig.daemon.returncode)
+                # everybody leaves: raw clients first, then the witnesses
+                for slot in sorted(self.toks):
+                    self.leave({"c": slot}, slot % 2 == 0)
+                rig.barrier()
+                if self.wit is not None:
+                    self.wit.leave_all(self.rng)
+                    for t in self.wtoks.values():
+                        self.w_absorb(t)
+                    rig.barrier()
+                if rig.device_open_count() != 0:
+                    self.v("model:C19:device-not-closed", "all clients have left but the capture device is still open (opens=%d closes=%d)"
+                           % (rig.tr_opens, rig.tr_closes))
+                have = rig.daemon_fds()
+                if have >= 0 and have != self.fd0:
+                    rig.barrier()
+                    have = rig.daemon_fds()
+                out.count("fd_checks")
+                if have >= 0 and have != self.fd0:
+                    self.v("model:C19:fd-leak", "after the last client left the daemon holds %d file descriptors, %d at start-up"
+                           % (have, self.fd0))
+            except DaemonDied as e:
+                died = str(e)
+            except (AbortSchedule, ClientGone, Inconclusive) as e:
+                if not rig.daemon_alive():
+                    died = str(e)
+                else:
+                    out.inconclusive.append("C19 token schedule %s/%s: %s" % (sched["seed"], sched["index"], e))
+            self.finish(died)
+            self.monitors()
+        finally:
+            rig.close()
+        return out
+
+    def signature(self, op, before):
+        k = op["op"]
+        if k == "notify":
+            fl = op["flags"]
+            k = "release" if fl & 1 else "return" if fl & 2 else "flush" if fl & 4 else "notify"
+        who = None
+        if "c" in op and self.toks.get(op["c"]) is not None:
+            who = self.toks[op["c"]].cid
+        elif "w" in op and self.wtoks.get(op["w"]) is not None:
+            who = self.wtoks[op["w"]].cid
+        b = before.get(who, (False, False))
+        was = "H" if b[0] and not b[1] else "R" if b[0] else "N"
+        res = set()
+        for e, cid in self.events_of_op:
+            if e in ("grant", "reclaim"):
+                res.add(e + ("-self" if cid == who else "-other"))
+        self.out.sigs.add("tok:%s:%s:%s" % (k, was, "+".join(sorted(res)) or "quiet"))
+
+    def monitors(self):
+        out = self.out
+        viol, stats = token_monitor(self.log)
+        for k, d in viol:
+            self.v(k, d)
+        out.count("token_holder_checks", stats["holder_checks"])
+        out.count("token_void_grants", stats["void_grants"])
+        out.count("token_log_events", len(self.log))
+        tr = self.rig.read_trace()
+        tv, trans, n = table_monitor(tr["events"], self.m.BG)
+        for k, d in tv:
+            self.v(k, d)
+        out.count("token_table_checks", n)
+        for t in trans:
+            out.sigs.add("trace:" + t)
+            out.count("token_transitions:" + t)
+
+
+def run_token_schedule(repo, sched):
+    out = Outcome()
+    try:
+        TokenRun(repo, sched, out).run()
+    except Exception as e:
+        import traceback
+        out.harness_errors.append("C19 token controller: %s\n%s" % (e, traceback.format_exc()[-1500:]))
+    out.counters.pop("_wfc_prev", None)
+    if not out.samples:
+        out.samples.append({"token schedule": "%s/%s" % (sched.get("seed"), sched.get("index")), "witnesses": sched["nw"],
+                            "token clients": sched["nt"], "ops": len(sched["ops"]), "first_ops": sched["ops"][:8]})
+    return out.to_json()
